@@ -3,6 +3,9 @@
 //
 
 #include "LookaheadSMTSolver.h"
+#ifdef OPENSMT_VERIF_HOOKS
+#include <common/VerifHooks.h>
+#endif
 #include "ResolutionProof.h"
 
 namespace opensmt {
@@ -86,6 +89,9 @@ lbool LookaheadSMTSolver::laPropagateWrapper() {
             vec<Lit> out_learnt;
             int out_btlevel;
             analyze(cr, out_learnt, out_btlevel);
+#ifdef OPENSMT_VERIF_HOOKS
+            verif::clause("L", out_learnt);
+#endif
             // Backtracking back to the second best decision level in the clause
             cancelUntil(out_btlevel);
             assert(value(out_learnt[0]) == l_Undef);
